@@ -64,6 +64,18 @@ const (
 //
 // Gt - for two decimals ONLY. If leftValue > rightValue.
 func CompareValues(left r.Element, right r.Element, verb uint8) (bool, error) {
+	return compareValues(left, right, verb, 0)
+}
+
+// MaxCompareDepth - how many levels of nested lists / dictionaries a comparison descends
+// (one Go stack frame per level: the bound keeps a value nested millions of levels deep from
+// overflowing the stack, which no handler could intercept)
+const MaxCompareDepth = 100000
+
+func compareValues(left r.Element, right r.Element, verb uint8, depth int) (bool, error) {
+	if depth > MaxCompareDepth {
+		return false, zerr.CompareDepthExceeded(MaxCompareDepth)
+	}
 	switch vl := left.(type) {
 	case *Null:
 		if _, ok := right.(*Null); ok {
@@ -124,7 +136,7 @@ func CompareValues(left r.Element, right r.Element, verb uint8) (bool, error) {
 			}
 			// cmp each item
 			for idx := range vl.value {
-				cmpVal, err := CompareValues(vl.value[idx], vr.value[idx], CmpEq)
+				cmpVal, err := compareValues(vl.value[idx], vr.value[idx], CmpEq, depth+1)
 				if err != nil {
 					return false, err
 				}
@@ -154,7 +166,7 @@ func CompareValues(left r.Element, right r.Element, verb uint8) (bool, error) {
 				if !ok {
 					return false, nil
 				}
-				cmpVal, err := CompareValues(vl.value[idx], vrr, CmpEq)
+				cmpVal, err := compareValues(vl.value[idx], vrr, CmpEq, depth+1)
 				if err != nil {
 					if cmpErr == nil {
 						cmpErr = err
@@ -178,7 +190,70 @@ func CompareValues(left r.Element, right r.Element, verb uint8) (bool, error) {
 // DuplicateValue - deepcopy values' structure, including bool, string, decimal, array, hashmap
 // for function or object or null, pass the original reference instead.
 // This is due to the 'copycat by default' policy
+//
+// Lists and dictionaries are copied with a work list instead of recursion: nothing bounds how
+// deep a value nests (a method can keep storing lists below the innermost list of its argument),
+// and one Go stack frame per level would end the whole process with a stack overflow.
 func DuplicateValue(in r.Element) r.Element {
+	switch in.(type) {
+	case *Array, *HashMap:
+	default:
+		return duplicateScalar(in)
+	}
+
+	// a collection still to be copied, and where its copy goes: a list slot or a dictionary key
+	type job struct {
+		src     r.Element
+		dstSlot *r.Element
+		dstMap  map[string]r.Element
+		dstKey  string
+	}
+	var root r.Element
+	jobs := []job{{src: in, dstSlot: &root}}
+	for len(jobs) > 0 {
+		j := jobs[len(jobs)-1]
+		jobs = jobs[:len(jobs)-1]
+
+		var dup r.Element
+		switch v := j.src.(type) {
+		case *Array:
+			items := make([]r.Element, len(v.value))
+			for idx, val := range v.value {
+				switch val.(type) {
+				case *Array, *HashMap:
+					jobs = append(jobs, job{src: val, dstSlot: &items[idx]})
+				default:
+					items[idx] = duplicateScalar(val)
+				}
+			}
+			dup = NewArray(items)
+		case *HashMap:
+			hm := &HashMap{
+				value:    make(map[string]r.Element, len(v.value)),
+				keyOrder: append([]string{}, v.keyOrder...),
+			}
+			for _, key := range v.keyOrder {
+				val := v.value[key]
+				switch val.(type) {
+				case *Array, *HashMap:
+					jobs = append(jobs, job{src: val, dstMap: hm.value, dstKey: key})
+				default:
+					hm.value[key] = duplicateScalar(val)
+				}
+			}
+			dup = hm
+		}
+		if j.dstSlot != nil {
+			*j.dstSlot = dup
+		} else {
+			j.dstMap[j.dstKey] = dup
+		}
+	}
+	return root
+}
+
+// duplicateScalar - DuplicateValue of anything but a list or a dictionary
+func duplicateScalar(in r.Element) r.Element {
 	switch v := in.(type) {
 	case *Bool:
 		return NewBool(v.value)
@@ -186,29 +261,67 @@ func DuplicateValue(in r.Element) r.Element {
 		return NewString(v.value)
 	case *Number:
 		return NewNumber(v.value)
-	case *Null:
-		return in // no need to copy since all "NULL" values are same
-	case *Array:
-		newArr := []r.Element{}
-		for _, val := range v.value {
-			newArr = append(newArr, DuplicateValue(val))
-		}
-		return NewArray(newArr)
-	case *HashMap:
-		kvPairs := []KVPair{}
-		for _, key := range v.keyOrder {
-			dupVal := DuplicateValue(v.value[key])
-			kvPairs = append(kvPairs, KVPair{key, dupVal})
-		}
-		return NewHashMap(kvPairs)
-	case *Function: // function itself is immutable, so return directly
-		return in
-	case *Object: // we don't copy object value at all
-		return in
-	case *GoValue:
-		return in
 	}
+	// Null (all "NULL" values are same), Function (immutable), Object (never copied),
+	// GoValue and whatever else: the original reference
 	return in
+}
+
+// stringifyCollection - the displayed form of a list [a，b] or a dictionary [k=v，…], nested
+// collections included. Like DuplicateValue it keeps its own stack instead of recursing once per
+// nesting level.
+func stringifyCollection(root r.Element) string {
+	type frame struct {
+		items []r.Element // (of a list)
+		hm    *HashMap    // (or: the dictionary)
+		idx   int
+	}
+	var sb strings.Builder
+	stack := []frame{}
+	open := func(v r.Element) bool {
+		switch c := v.(type) {
+		case *Array:
+			stack = append(stack, frame{items: c.value})
+		case *HashMap:
+			stack = append(stack, frame{hm: c})
+		default:
+			return false
+		}
+		sb.WriteString("[")
+		return true
+	}
+
+	open(root)
+	for len(stack) > 0 {
+		f := &stack[len(stack)-1]
+		count := len(f.items)
+		if f.hm != nil {
+			count = len(f.hm.keyOrder)
+		}
+		if f.idx == count {
+			sb.WriteString("]")
+			stack = stack[:len(stack)-1]
+			continue
+		}
+		if f.idx > 0 {
+			sb.WriteString("，")
+		}
+		var child r.Element
+		if f.hm != nil {
+			key := f.hm.keyOrder[f.idx]
+			sb.WriteString(key)
+			sb.WriteString("=")
+			child = f.hm.value[key]
+		} else {
+			child = f.items[f.idx]
+		}
+		f.idx++
+		// (f is not used after this point: open() may move the stack)
+		if !open(child) {
+			sb.WriteString(child.String())
+		}
+	}
+	return sb.String()
 }
 
 func ThrowException(message string) *zerr.Signal {
